@@ -1,47 +1,10 @@
 package rapid
 
-import "time"
 
 // C09 / C07: findBug's loop and checkTB's verdict.
 
-// outcomeProp is a property whose i-th invocation passes, skips or fails as the solver chooses.
-type outcomeProp struct {
-	calls   int
-	passes  int
-	skips   int
-	fails   int
-	after   int // invocations after the first failing one
-	firstOutcome int
-}
 
-func (o *outcomeProp) prop(t *T) {
-	o.calls++
-	if o.fails > 0 {
-		o.after++
-	}
-	out := 2
-	switch nondetU8("o" + itoa(o.calls)) {
-	case 0:
-		out = 0
-	case 1:
-		out = 1
-	}
-	if o.calls == 1 {
-		o.firstOutcome = out
-	}
-	switch out {
-	case 0:
-		o.passes++
-	case 1:
-		o.skips++
-		t.Skip("skip")
-	default:
-		o.fails++
-		t.Fatalf("fail")
-	}
-}
 
-func farDeadline() time.Time { return time.Now().Add(24 * time.Hour) }
 
 // H_C09_findBug: bounded unrolling of the real loop for small N and every outcome sequence.
 func H_C09_findBug() {
@@ -173,6 +136,7 @@ func H_C09_findBugStep() {
 		return // too long to drive natively
 	}
 	valid, invalid, early, seed, err := findBug(newVTB("S"), farDeadline(), checks, seed0, prop)
+	vassert(!early, "C09: findBug stops early (and Check then passes with fewer than N test cases) although the deadline is a day away")
 	if early {
 		return
 	}
